@@ -163,7 +163,7 @@ def tiny_consts(mode, L=2, moduli=(), rmoduli=(), biglens=(), bitlens=()):
             "BitLens": list(bitlens)}
 
 
-def tiny_scalar(ctx, moduli_filter="", binary=None, L=None):
+def tiny_scalar(ctx, moduli_filter="", binary=None, L=None, also=None):
     """Exact check of kyber's mod.Int over Z_m, m = 2..17 (used by C02 and by C19's thorough tier):
     TLC computes every (op, operand aliasing, a, b) result, SetInt64 -20..20 and SetBytes of 1..3 bytes in both byte
     orders; the Go driver `tiny -what scalar` compares exhaustively.  `binary` lets the caller pass a vh-xof built
@@ -176,9 +176,11 @@ def tiny_scalar(ctx, moduli_filter="", binary=None, L=None):
     if moduli_filter:
         args += ["-moduli", moduli_filter]
     res = ctx.run_vh("tiny", args, binary=binary or _bin(ctx))
+    for b, filt in (also or []):   # the same behaviours on other builds, e.g. (vh-tiny built with constantTime, "odd")
+        ctx.run_vh("tiny", ["-what", "scalar", "-in", bh] + (["-moduli", filt] if filt else []), binary=b)
     os.remove(bh)
     if L > 2:   # the full single-operation table as well
-        tiny_scalar(ctx, moduli_filter, binary, L=2)
+        tiny_scalar(ctx, moduli_filter, binary, L=2, also=also)
     return res
 
 
